@@ -53,25 +53,36 @@ structure LibD where
   /-- `verifyCookie` on the `k`-th ClientHello read by the cookie loop -/
   cookieOk : Nat → Bool
 
-/-- a reassembly buffer: `data` has `max total 1` bytes, the bitmap one bit per byte -/
+/-- a reassembly buffer, by what determines its size and completeness: `data` has
+`n = max total 1` bytes, the bitmap one bit per byte; `marks` are the accepted
+`(offset, length)` ranges -/
 structure PBuf where
   seq : Nat
   total : Nat
-  covered : List Bool
+  n : Nat
+  marks : List (Nat × Nat)
   deriving Repr, DecidableEq
 
 def PBuf.new (seq total : Nat) : PBuf :=
-  { seq := seq, total := total, covered := List.replicate (if total < 1 then 1 else total) false }
+  { seq := seq, total := total, n := if total < 1 then 1 else total, marks := [] }
 
 /-- bytes held by a buffer: `len(fb.data) + len(fb.received)` -/
-def PBuf.bytes (b : PBuf) : Nat := b.covered.length + (b.covered.length + 7) / 8
+def PBuf.bytes (b : PBuf) : Nat := b.n + (b.n + 7) / 8
 
 /-- `addFragment(off, len, …)`: marks `[off, off+len)`; out of range is ignored -/
 def PBuf.add (b : PBuf) (off len : Nat) : PBuf :=
-  if off + len > b.covered.length then b
-  else { b with covered := (List.range b.covered.length).map (fun i => b.covered.getD i false || (off ≤ i && i < off + len)) }
+  if off + len > b.n then b else { b with marks := (off, len) :: b.marks }
 
-def PBuf.complete (b : PBuf) : Bool := b.covered.all id
+/-- one sweep: how far the prefix `[0, cur)` extends using each range once -/
+def sweep (marks : List (Nat × Nat)) (cur : Nat) : Nat :=
+  marks.foldl (fun c m => if m.1 ≤ c ∧ c < m.1 + m.2 then m.1 + m.2 else c) cur
+
+def sweeps (marks : List (Nat × Nat)) : Nat → Nat → Nat
+  | 0, cur => cur
+  | k + 1, cur => sweeps marks k (sweep marks cur)
+
+/-- `complete()`: every byte `0 … n-1` lies in some accepted range -/
+def PBuf.complete (b : PBuf) : Bool := sweeps b.marks (b.marks.length + 1) 0 ≥ b.n
 
 structure StD where
   dgrams : List Bytes     -- datagrams waiting in the socket
